@@ -71,7 +71,7 @@ def eq(x, y):
     elif isinstance(x, (tuple, list)):
         return type(x) == type(y) and len(x) == len(y) and _eq_attrs(x,y,['__shape__']) and (len(x) == 0 or min([eq(i,j) for i,j in zip(x,y)]))
     elif isinstance(x, np.ndarray):
-        return type(x) == type(y) and len(x) == len(y) and _eq_attrs(x,y,['__shape__']) and (0 in x.shape or np.all(veq(x,y)))
+        return type(x) == type(y) and len(x) == len(y) and _eq_attrs(x,y,['shape']) and (0 in x.shape or np.all(veq(x,y)))
     elif isinstance(x, (pd.DataFrame, pd.Series)):
         return type(x)==type(y) and _eq_attrs(x,y, attrs = ['__shape__', 'index', 'columns']) and (0 in x.shape or np.all(veq(x,y)))
     elif isinstance(x, dict):
@@ -87,6 +87,8 @@ def eq(x, y):
         return isinstance(y, float) and np.isnan(y)    
     elif isinstance(x, partial):
         return type(x) == type(y) and x.func == y.func and eq(x.keywords, y.keywords) and eq(x.args, y.args)
+    elif isinstance(y, (tuple, list, dict, np.ndarray, pd.DataFrame, pd.Series)) and (isinstance(x, str) or not hasattr(x, '__len__')):
+        return False # x is a scalar and y a container: numpy would broadcast x == y and e.g. find 1 equal to np.array([]) or [1.0]
     else:
         try:
             res = x == y
